@@ -120,12 +120,18 @@ func Build(d DatumSpec) interface{} {
 		// more distinct short strings than any bounded memo holds (1024 is the
 		// usual size): records whose names all differ, with a handful of prefixes
 		n := r.Range(1100, 2600)
+		if r.Chance(0.3) {
+			n = r.Range(257, 700) // just above the usual small-input thresholds, rarely a multiple of 64
+		}
 		pre := []string{"web", "db", "cache", "api", "job"}
+		off, run := r.Intn(len(pre)), r.Range(1, 90)
 		l := make([]Inner, n)
 		names := make([]string, n)
 		for i := range l {
-			names[i] = fmt.Sprintf("%s-%04d", pre[(i*7+i/3)%len(pre)], i)
-			l[i] = Inner{X: i, Y: names[i], B: i%3 == 0}
+			// (two data of this kind differ at the same index: the prefix pattern is
+			// shifted per datum, and runs of one prefix have a per-datum length)
+			names[i] = fmt.Sprintf("%s-%04d", pre[(i/run+i*7+off)%len(pre)], i)
+			l[i] = Inner{X: i, Y: names[i], B: (i+off)%3 == 0}
 		}
 		if d.Gen == "names" {
 			v = map[string]interface{}{"items": names, "n": n}
